@@ -55,6 +55,18 @@ def specs(tier, seed):
                     "sess": {"qtype": ["NULL", "TXT", "PRIVATE", "MX", "SRV"][i % 5], "lazy": i % 2, "fragsize": fs,
                              "maxlen": [None, 200, 160, 120][i % 4]},
                     "relay": {}, "mode": "clean", "pkts": pk, "dur_ms": t + 30000, "label": "frag16-%d" % i})
+    # an outage of 2.2 .. 3.5 s that starts while an upstream packet is in flight, with further packets arriving on the
+    # client's tun device during it (the client drains and drops them while it re-sends); afterwards both directions
+    # must work again
+    for i in range(8 if tier == "quick" else 60):
+        t1 = 1000 + 40 * (i % 5)
+        dur = [2200, 2600, 3100, 3500][i % 4]
+        pk = [[400, "C0", "S", "rand", 100], [t1, "C0", "S", "rand", [600, 1100][i % 2]]]
+        pk += [[t1 + 200 + 300 * j, "C0", "S", "text", 60 + j] for j in range(1 + i % 3)]
+        pk += [[t1 + dur + 22000 + 700 * j, ["C0", "S"][j % 2], ["S", "C0"][j % 2], "rand", 200] for j in range(4)]
+        out.append({"seed": seed * 100000 + 280 + i, "sess": {"qtype": common.QTYPES[i % 7], "lazy": i % 2}, "relay": {},
+                    "mode": "faulty", "post_ms": t1 + dur + 20000, "blackout_ms": [["*", t1 + 2, t1 + dur]],
+                    "pkts": pk, "dur_ms": t1 + dur + 60000, "label": "outage%d" % i})
     for i in range(4 if tier == "quick" else 30):
         pk, tend = pacing(rng, kinds[i % 6], 14)
         out.append({"seed": seed * 100000 + 290 + i, "sess": {"qtype": "NULL", "raw": True}, "relay": {},
@@ -96,6 +108,11 @@ def main(tier):
     common.judge(chk, results, "TraceMonProgress", "TraceMonProgress.cfg", "progress",
                  sigfn=lambda r, rej: "%s:%s" % (r["spec"].get("mode"), rej["event"].get("e")), key="C02")
     common.bind_tunnel(chk, results)        # Layer A: the same runs as behaviours of Tunnel.tla / RawTunnel.tla (drift only)
+    for r in results:
+        if r["hang"]:
+            # a program that stopped returning from a step, or that spins on a readable descriptor it never reads
+            chk.violation("progress:wedge:%s" % ("livelock" if "livelock" in (r["error"] or "") else "hang"),
+                          "run %s: %s" % (r["label"], r["error"]), {"spec": r["spec"]})
     chk.cov["evaluations"] = len(results)
     chk.cov["distinct_nontrivial"] = len({r["label"] for r in results if r["stats"].get("must", 0) >= 3})
     chk.cov["packets_accepted"] = sum(r["stats"].get("accepted", 0) for r in results)
